@@ -285,7 +285,10 @@ class Report:
         }
         if self.notes:
             ev["notes"] = self.notes
-        with open(os.path.join(EVIDENCE, self.prop + ".json"), "w") as f:
+        # checks beyond the listed properties (ids X_...) keep their evidence apart from the manifest's evidence files
+        evdir = EVIDENCE if not self.prop.startswith("X_") else os.path.join(ROOT, "evidence_extra")
+        os.makedirs(evdir, exist_ok=True)
+        with open(os.path.join(evdir, self.prop + ".json"), "w") as f:
             json.dump(ev, f, indent=1, default=str)
         log("%s %s: evaluations=%s nontrivial=%s violations=%d known=%d wall=%.1fs" % (
             self.prop, self.tier, cov.get("evaluations"), cov.get("distinct_nontrivial"),
